@@ -52,6 +52,7 @@ func run(r *common.Run) error {
 		switch group {
 		case "fuzz":
 			c.corpus()
+			c.paged()
 			c.systematic()
 			c.random()
 		case "scen":
@@ -317,6 +318,99 @@ func (c *ctx) corpus() {
 	}
 	for _, h := range corpusHelper {
 		c.helper(helperByName(h[0]), h[1], h[2], "corpus")
+	}
+}
+
+// rsmSet: a result-set-management trailer; last == "" and !empty = no trailer at all.
+func rsmSet(first, last string, empty bool) string {
+	if last == "" && !empty {
+		return ""
+	}
+	s := `<set xmlns="http://jabber.org/protocol/rsm">`
+	if first != "" {
+		s += `<first index="0">` + first + `</first>`
+	}
+	if last != "" {
+		s += `<last>` + last + `</last>`
+	} else {
+		s += `<last/>`
+	}
+	return s + `<count>9</count></set>`
+}
+
+func itemsPage(node string, jids []string, trailer string) string {
+	s := `<query xmlns="http://jabber.org/protocol/disco#items"`
+	if node != "" {
+		s += ` node="` + node + `"`
+	}
+	s += `>`
+	for _, j := range jids {
+		s += `<item jid="` + j + `" node="n` + j[:1] + `" name="x"/>`
+	}
+	return s + trailer + `</query>`
+}
+
+func pubsubPage(ids []string, trailer string) string {
+	s := `<pubsub xmlns="http://jabber.org/protocol/pubsub"><items node="n">`
+	for _, id := range ids {
+		s += `<item id="` + id + `"><conference xmlns="urn:xmpp:bookmarks:1" name="R"/></item>`
+	}
+	return s + `</items>` + trailer + `</pubsub>`
+}
+
+// paged: multi-page results (RSM) for every iterator that can turn pages, with a peer that
+// answers every request: 2–3 pages, last page with an empty <last/>, without a trailer, and a
+// peer that always announces another page; every single-step mutation of the second page.
+func (c *ctx) paged() {
+	c.r.Mark("case paged")
+	type gen func(k int, trailer string) string
+	its := []struct {
+		helper string
+		page   gen
+	}{
+		{"disco.FetchItems", func(k int, t string) string {
+			return itemsPage("", []string{fmt.Sprintf("a%d.example.net", k), fmt.Sprintf("b%d.example.net", k)}, t)
+		}},
+		{"disco.WalkItem", func(k int, t string) string {
+			return itemsPage("", []string{fmt.Sprintf("a%d.example.net", k)}, t)
+		}},
+		{"commands.Fetch", func(k int, t string) string {
+			return itemsPage("http://jabber.org/protocol/commands", []string{fmt.Sprintf("c%d.example.net", k)}, t)
+		}},
+		{"pubsub.Fetch", func(k int, t string) string {
+			return pubsubPage([]string{fmt.Sprintf("i%d", k), fmt.Sprintf("j%d", k)}, t)
+		}},
+		{"bookmarks.Fetch", func(k int, t string) string {
+			return pubsubPage([]string{fmt.Sprintf("room%d@conf.example", k)}, t)
+		}},
+	}
+	for _, it := range its {
+		h := helperByName(it.helper)
+		more := func(k int) string { return it.page(k, rsmSet(fmt.Sprintf("f%d", k), fmt.Sprintf("l%d", k), false)) }
+		sets := [][]string{
+			{more(1), it.page(2, "")},
+			{more(1), more(2), it.page(3, "")},
+			{more(1), it.page(2, rsmSet("f2", "", true))},
+			{more(1), more(2), it.page(3, rsmSet("", "", true))},
+			{more(1)}, // always another page: cut off by the peer's item-not-found
+			{more(1), `<query xmlns="http://jabber.org/protocol/disco#items"/>`},
+			{more(1), ``},
+			{more(1), ` ` + it.page(2, "")},
+		}
+		for _, pages := range sets {
+			c.helperp(h, "result", pages, "paged")
+		}
+		single(parse(it.page(2, rsmSet("f2", "l2", false))), nil, func(m *node, class string) {
+			c.helperp(h, "result", []string{more(1), m.String(), it.page(3, "")}, "paged-single-"+class)
+		})
+	}
+	// history: the fin reply carries the paging trailer
+	hf := helperByName("history.Fetch")
+	for _, fin := range []string{
+		`<fin xmlns="urn:xmpp:mam:2">` + rsmSet("a", "b", false) + `</fin>`,
+		`<fin xmlns="urn:xmpp:mam:2" complete="true">` + rsmSet("", "", true) + `</fin>`,
+	} {
+		c.helperp(hf, "result", []string{fin, fin}, "paged")
 	}
 }
 
